@@ -53,7 +53,7 @@ type c19Intent struct {
 }
 
 type c19Step struct {
-	Op     string               `json:"op"` // seed | save | delete | menu | apply
+	Op     string               `json:"op"` // seed | extern-rm | extern-drop | save | delete | menu | apply
 	Name   string               `json:"name,omitempty"`
 	Params map[string]string    `json:"params,omitempty"` // URL parameters (without "config")
 	Intent map[string]c19Intent `json:"intent,omitempty"` // per URL parameter of a config field
@@ -426,6 +426,10 @@ func (e *c19Env) runSeq(cs c19Case) (nontrivial bool) {
 			os.MkdirAll(filepath.Dir(srv.file), 0o700)
 			os.WriteFile(srv.file, []byte(st.Raw), 0o644)
 			c.Res.Hit("seq-op:seed")
+		case "extern-rm", "extern-drop":
+			// another process changed the settings file between two requests
+			c19Extern(srv.file, st)
+			c.Res.Hit("seq-op:" + st.Op)
 		case "save", "delete":
 			var q url.Values
 			if st.Op == "save" {
@@ -454,7 +458,9 @@ func (e *c19Env) runSeq(cs c19Case) (nontrivial bool) {
 				_, nb := c19Find(before.Entries, st.Name)
 				ent, na := c19Find(after.Entries, st.Name)
 				if st.Op == "save" {
-					if (nb == 0 && na != 1) || (nb > 0 && na != nb) {
+					if nb == 0 && na == 0 {
+						c.Violation("C19/save/reported-success-but-not-saved", fmt.Sprintf("saving %q was answered 200 OK but settings.json holds no configuration of that name afterwards", st.Name), cs)
+					} else if (nb == 0 && na != 1) || (nb > 0 && na != nb) {
 						c.Violation("C19/save/entry-count", fmt.Sprintf("saving %q: %d entries of that name before, %d after", st.Name, nb, na), cs)
 					}
 					allValid := true
@@ -624,7 +630,7 @@ func c19SeqKey(cs c19Case) string {
 }
 
 func runC19(c *Ctx) {
-	c.Res.Rule = "(i) random sequences (4-12 steps, optional hand-written seed file) of /saveconfig (random subset of URL-carried options; per kind canonical, alternative, invalid and unset spellings), /deleteconfig, menu reads and apply (follow a menu URL, save under a new name) against the real handlers; non-trivial = a save with >=1 non-default option followed by a delete or apply; " +
+	c.Res.Rule = "(i) random sequences (4-12 steps, optional hand-written seed file) of /saveconfig (random subset of URL-carried options; per kind canonical, alternative, invalid and unset spellings), /deleteconfig, menu reads and apply (follow a menu URL, save under a new name) against the real handlers; non-trivial = a save with >=1 non-default option followed by a delete or apply; (i') 120 histories of 7-17 steps on ONE server over 2-3 names x 2-3 fixed option sets with exactly repeated requests (30% of requests repeat an earlier one), deletes, menu reads and external edits of settings.json between requests (entry dropped, file removed), each step judged against the model and the direct oracle; non-trivial = some request occurs twice; " +
 		"(ii) one strace'd save per protocol scenario mapped to model ops and judged by fs.accepts; (iii) write error / kill at every write syscall, every byte position (RLIMIT_FSIZE sweep) and at rename; (iv) rounds of 16 concurrent save/delete requests, final file judged per name against all serial orders by the model; distinct by canonical case text"
 	scratch := filepath.Join(c.Dir, fmt.Sprintf("scratch-%d", os.Getpid()))
 	os.RemoveAll(scratch)
@@ -678,6 +684,16 @@ func runC19(c *Ctx) {
 	// saved options the URL cannot carry (separate stream)
 	if terr == nil {
 		e.sessions(r)
+	}
+	// (i'): histories over a small alphabet with repeated identical requests and external edits
+	if terr == nil {
+		n := 120 * c.Scale
+		for i := 0; i < n; i++ {
+			cs := c19GenHist(r, t)
+			nt := e.runSeq(cs)
+			c.Res.Count("hist:"+c19SeqKey(cs), nt || c19HistRepeats(cs))
+			c.Res.Hit("hist-cases")
+		}
 	}
 	// (i): sequences
 	if terr == nil {
